@@ -55,3 +55,171 @@ fn honest_round_trip_unit_group() {
         assert!(matches!(verify_proof(g, &bad, com, &bp), Err(R1CSError::VerificationError)));
     }
 }
+
+// -----------------------------------------------------------------------------------------
+// The stubs are really in force (per feature) and agree with the #[kani::stub] wrappers.
+// -----------------------------------------------------------------------------------------
+
+/// keccak::f1600 is the stub body iff `native-stubs-l1` is on.
+#[test]
+fn keccak_stub_in_force_iff_feature() {
+    let mut a = [0u64; 25];
+    a[3] = 7;
+    let mut b = a;
+    keccak::f1600(&mut a);
+    crate::stubs::f1600_stub(&mut b);
+    assert_eq!(a == b, cfg!(feature = "native-stubs-l1"));
+    // the stub is not the identity and not constant
+    let mut c = [0u64; 25];
+    crate::stubs::f1600_stub(&mut c);
+    assert_ne!(b, c);
+    assert_ne!(c, [0u64; 25]);
+}
+
+/// ChaCha20Rng built by the library equals the stub wrappers iff `native-stubs-l1` is on; the
+/// stubbed stream is non-zero, seed-dependent and advances.
+#[test]
+fn chacha_stub_in_force_iff_feature() {
+    use rand_chacha::ChaCha20Core;
+    use rand_core::block::BlockRngCore;
+    use rand_core::SeedableRng;
+    let seed = [9u8; 32];
+    let mut lib = ChaCha20Core::from_seed(seed);
+    let mut r1 = <ChaCha20Core as BlockRngCore>::Results::default();
+    lib.generate(&mut r1);
+    let mut st = crate::stubs::chacha_from_seed_stub(seed);
+    let mut r2 = <ChaCha20Core as BlockRngCore>::Results::default();
+    crate::stubs::chacha_generate_stub(&mut st, &mut r2);
+    assert_eq!(r1.as_ref() == r2.as_ref(), cfg!(feature = "native-stubs-l1"));
+    let mut r3 = <ChaCha20Core as BlockRngCore>::Results::default();
+    crate::stubs::chacha_generate_stub(&mut st, &mut r3);
+    assert_ne!(r2.as_ref(), r3.as_ref());
+    assert!(r2.as_ref().iter().all(|w| *w != 0));
+    let mut st2 = crate::stubs::chacha_from_seed_stub([8u8; 32]);
+    let mut r4 = <ChaCha20Core as BlockRngCore>::Results::default();
+    crate::stubs::chacha_generate_stub(&mut st2, &mut r4);
+    assert_ne!(r2.as_ref(), r4.as_ref());
+}
+
+/// Toy transcript: library == wrappers iff `native-stubs-l2`; challenges depend on content.
+#[test]
+fn toy_transcript_in_force_iff_feature() {
+    use crate::stubs::*;
+    use merlin::Transcript;
+    let mut lib = Transcript::new(b"x");
+    lib.append_message(b"l", b"hello");
+    let mut c1 = [0u8; 32];
+    lib.challenge_bytes(b"c", &mut c1);
+    let mut toy = toy_transcript_new(b"x");
+    toy_append_message(&mut toy, b"l", b"hello");
+    let mut c2 = [0u8; 32];
+    toy_challenge_bytes(&mut toy, b"c", &mut c2);
+    assert_eq!(c1 == c2, cfg!(feature = "native-stubs-l2"));
+    let mut toy2 = toy_transcript_new(b"x");
+    toy_append_message(&mut toy2, b"l", b"hellp");
+    let mut c3 = [0u8; 32];
+    toy_challenge_bytes(&mut toy2, b"c", &mut c3);
+    assert_ne!(c2, c3);
+    let mut c4 = [0u8; 32];
+    toy_challenge_bytes(&mut toy2, b"c", &mut c4);
+    assert_ne!(c3, c4);
+    // the prover-side RNG path
+    let b = toy_rekey(toy.build_rng(), b"w", b"witness");
+    let mut rng = toy_finalize(b, &mut CounterRng(1));
+    let (mut d1, mut d2) = ([0u8; 2], [0u8; 2]);
+    toy_rng_fill_bytes(&mut rng, &mut d1);
+    toy_rng_fill_bytes(&mut rng, &mut d2);
+    assert_ne!(d1, d2);
+}
+
+/// Under whatever stub level is compiled in, honest challenges on the unit group are
+/// non-zero and not all equal (no degenerate transcript), and generator chains differ.
+#[test]
+fn challenges_and_generators_not_degenerate() {
+    use ark_bulletproofs::verif_hooks::TranscriptProtocol;
+    use merlin::Transcript;
+    let mut t = Transcript::new(b"nd");
+    let mut seen = std::collections::BTreeSet::new();
+    for i in 0..40u16 {
+        <Transcript as TranscriptProtocol<UnitA>>::append_point(&mut t, b"P", &UnitA(K271(i)));
+        let c: K271 = <Transcript as TranscriptProtocol<UnitA>>::challenge_scalar(&mut t, b"c");
+        assert!(c.0 != 0 && c.0 < 271);
+        seen.insert(c.0);
+    }
+    assert!(seen.len() > 20, "challenges look constant: {:?}", seen);
+    let bp = BulletproofGens::<UnitA>::new(4, 2);
+    let g0 = bp.share(0).verif_G(4);
+    let h0 = bp.share(0).verif_H(4);
+    let g1 = bp.share(1).verif_G(4);
+    assert_ne!(g0, h0);
+    assert_ne!(g0, g1);
+    assert!(g0.iter().all(|p| p.0 .0 != 0));
+}
+
+// -----------------------------------------------------------------------------------------
+// C08 replays on the unit group (ordinary tests)
+// -----------------------------------------------------------------------------------------
+
+/// Encoding of a structurally arbitrary proof: the two list lengths are independent prefixes.
+fn craft(len_l: usize, len_r: usize) -> Vec<u8> {
+    let mut b = Vec::new();
+    let el = |b: &mut Vec<u8>, v: u16| b.extend_from_slice(&v.to_le_bytes());
+    for i in 0..14 {
+        el(&mut b, 21 + i);
+    }
+    b.extend_from_slice(&(len_l as u64).to_le_bytes());
+    for i in 0..len_l {
+        el(&mut b, 3 + i as u16);
+    }
+    b.extend_from_slice(&(len_r as u64).to_le_bytes());
+    for i in 0..len_r {
+        el(&mut b, 5 + i as u16);
+    }
+    el(&mut b, 7);
+    el(&mut b, 9);
+    b
+}
+
+/// C08: every (|L|, |R|) in a 4x4 grid, against circuits of 0..=4 gates, through the public
+/// byte interface: `from_bytes` accepts (independent prefixes), `verify` returns without
+/// panicking.  (On the pre-fix tree 5ee7c7d this test aborts for |L| != |R|; the crate is
+/// built with panic = "abort" in its own profiles, here a panic fails the test.)
+#[test]
+fn c08_replay_unequal_lengths_verify_returns() {
+    for g in 0..=4usize {
+        let cap = g.next_power_of_two().max(1);
+        let bp = BulletproofGens::<UnitA>::new(cap, 1);
+        for l in 0..4 {
+            for r in 0..4 {
+                let bytes = craft(l, r);
+                let proof = R1CSProof::<UnitA>::from_bytes(&bytes).expect("decodes");
+                let res = verify_proof(g, &proof, UnitA(K271(50)), &bp);
+                assert!(res.is_err(), "garbage proof accepted g={} l={} r={}", g, l, r);
+            }
+        }
+    }
+}
+
+/// C08 at the inner-product level: `verification_scalars` returns Err for unequal lengths and
+/// for n != 2^|L|, Ok with the right vector lengths otherwise.
+#[test]
+fn c08_replay_ipp_scalars_grid() {
+    use merlin::Transcript;
+    for l in 0..4usize {
+        for r in 0..4usize {
+            for n in 0..10usize {
+                let lv: Vec<UnitA> = (0..l).map(|i| UnitA(K271(3 + i as u16))).collect();
+                let rv: Vec<UnitA> = (0..r).map(|i| UnitA(K271(5 + i as u16))).collect();
+                let p = InnerProductProof::<UnitA>::verif_from_parts(lv, rv, K271(7), K271(9));
+                let mut t = Transcript::new(b"ipp");
+                match p.verif_verification_scalars(n, &mut t) {
+                    Ok((a, b, s)) => {
+                        assert!(l == r && n == 1 << l);
+                        assert_eq!((a.len(), b.len(), s.len()), (l, l, n));
+                    }
+                    Err(_) => assert!(l != r || n != 1 << l),
+                }
+            }
+        }
+    }
+}
